@@ -222,6 +222,14 @@ class FloatLiteral(Literal[float]):
 
     __slots__ = ()
 
+    def __str__(self) -> str:
+        s = repr(self.value).lower()
+        if "." not in s and "e" in s:
+            # Keep a fractional part, or "1e+18" would be read back as an integer.
+            mantissa, exponent = s.split("e", 1)
+            return f"{mantissa}.0e{exponent}"
+        return s
+
 
 class RegexLiteral(Literal[Pattern[str]]):
     """A regex literal."""
